@@ -285,6 +285,27 @@ type anyMsg interface {
 	Summary() string
 }
 
+// decodeVia is decodeAny through a chosen public entry point: 0 = FromBytes; 1 = the
+// type-specific decoder a caller that has looked at the first byte would use
+// (dhcpv6.MessageFromBytes as nclient6 does, dhcpv6.RelayMessageFromBytes).
+func decodeVia(v6 bool, b []byte, entry int) (anyMsg, error) {
+	if v6 && entry == 1 && len(b) > 0 {
+		if b[0] == byte(dhcpv6.MessageTypeRelayForward) || b[0] == byte(dhcpv6.MessageTypeRelayReply) {
+			m, err := dhcpv6.RelayMessageFromBytes(b)
+			if err != nil {
+				return nil, err
+			}
+			return m, nil
+		}
+		m, err := dhcpv6.MessageFromBytes(b)
+		if err != nil {
+			return nil, err
+		}
+		return m, nil
+	}
+	return decodeAny(v6, b)
+}
+
 func decodeAny(v6 bool, b []byte) (anyMsg, error) {
 	if v6 {
 		m, err := dhcpv6.FromBytes(b)
@@ -598,7 +619,8 @@ func (st *bufState) start() {
 					v6 = false
 				}
 				private := append([]byte(nil), buf[:n]...)
-				refMsg, err := decodeAny(v6, private)
+				entry := t.Choose(2) // which public decode function this receive path uses
+				refMsg, err := decodeVia(v6, private, entry)
 				if err != nil {
 					if st.mutated[string(private)] {
 						s.Probe("shape-mutated-input-refused-by-decoder")
@@ -610,7 +632,7 @@ func (st *bufState) start() {
 				if st.mutated[string(private)] {
 					s.Probe("shape-mutated-input-accepted-by-decoder")
 				}
-				m, err := decodeAny(v6, buf[:n]) // the decode under test: from the shared, reusable buffer
+				m, err := decodeVia(v6, buf[:n], entry) // the decode under test: from the shared, reusable buffer
 				if err != nil {
 					st.decodeFailures = append(st.decodeFailures, "shared-buffer decode: "+err.Error())
 					continue
